@@ -101,6 +101,13 @@ class GenElab:
                 ops.append({"op": "redecorate", "cls": j, "name": name,
                             "deco": ["ensure" if rng.random() < 0.7 else "require", self.contract(), True]})
                 continue
+            earlier = [o for o in ops if o["op"] == "func"]
+            if earlier and rng.random() < 0.08:
+                # contracts on a functools.partial of an earlier function: a callable of its own
+                base = rng.choice(earlier)
+                ops.append({"op": "func", "name": "fn%d" % len(ops), "async": base["async"], "kind": "plain",
+                            "sig": base["sig"], "decos": self.decos("plain"), "partial_of": base["name"]})
+                continue
             if rng.random() < 0.25:
                 ops.append({"op": "func", "name": "fn%d" % len(ops), "async": rng.random() < 0.2, "kind": "plain",
                             "sig": self.sig("plain"), "decos": self.decos("plain")})
@@ -331,6 +338,19 @@ def py_op(i, op, class_names):
         return "\n".join([h.lstrip() for h in helpers]
                          + ["%s.%s = %s(%s.%s)" % (class_names[op["cls"]], op["name"], text[1:], class_names[op["cls"]],
                                                    op["name"])]) + "\n"
+    if op["op"] == "func" and op.get("partial_of"):
+        helpers = []
+        decos = [py_deco(d, helpers, "") for d in op["decos"]]
+        import render_checker
+        # (a definition that raises binds nothing: the name is bound last; where the earlier definition had raised,
+        #  a stand-in with its signature is taken)
+        lines = ["%s _standin(%s): return None" % ("async def" if op["async"] else "def", render_checker.sig_with_defaults(op["sig"])),
+                 "_base = globals().get(%r)" % op["partial_of"],
+                 "_new = functools.partial(_base if _base is not None else _standin)"]
+        # as with decorator syntax: the decorator expressions are evaluated top-down first, then applied bottom-up
+        lines.append("_decorators = [%s]" % ", ".join(d[1:] for d in reversed(decos)))
+        lines += ["for _d in reversed(_decorators): _new = _d(_new)", "%s = _new" % op["name"]]
+        return "\n".join(helpers + lines) + "\n"
     if op["op"] == "func":
         m = dict(op)
         m["toplevel"] = True
